@@ -23,7 +23,7 @@ pub mod parser {
 }
 
 #[derive(Clone, Debug)]
-pub struct ModelRecord { pub id: Vec<u8>, pub seq: Vec<u8>, pub qual: Option<Vec<u8>> }
+pub struct ModelRecord { pub id: &'static [u8], pub seq: Vec<u8>, pub qual: Option<Vec<u8>> }
 #[derive(Clone, Debug)]
 pub struct ModelFile { pub path: &'static str, pub records: Vec<ModelRecord> }
 
@@ -39,7 +39,7 @@ impl<'a> SequenceRecord<'a> {
     pub fn seq(&self) -> Cow<'a, [u8]> { Cow::Borrowed(&self.rec.seq) }
     pub fn num_bases(&self) -> usize { self.rec.seq.len() }
     pub fn qual(&self) -> Option<&'a [u8]> { self.rec.qual.as_deref() }
-    pub fn id(&self) -> &'a [u8] { &self.rec.id }
+    pub fn id(&self) -> &'a [u8] { self.rec.id }
     pub fn format(&self) -> parser::Format { if self.rec.qual.is_some() { parser::Format::Fastq } else { parser::Format::Fasta } }
 }
 pub trait FastxReader { fn next(&mut self) -> Option<Result<SequenceRecord<'_>, errors::ParseError>>; }
